@@ -125,6 +125,7 @@ type source struct {
 	main    string
 	lines   [][]int  // lines[f-1][i-1] = line of statement i of function f (0 when not applicable)
 	paths   []string // paths[f-1] = file that contains function f
+	pkgs    []string // pkgs[f-1] = for a program, the path of the package that contains function f (templates: the file)
 	tmpl    bool
 	variant string
 }
@@ -240,7 +241,7 @@ func samePaths(n int, p string) []string {
 // gc == true renders the same program as plain Go for the gc toolchain (oracle guard only).
 func goProgram(c *c12Case, variant string, gc bool) *source {
 	n := len(c.Prog)
-	src := &source{main: "main.go", lines: make([][]int, n), paths: samePaths(n, "main.go"), variant: variant}
+	src := &source{main: "main.go", lines: make([][]int, n), paths: samePaths(n, "main.go"), pkgs: samePaths(n, "main"), variant: variant}
 	w := &writer{}
 	w.ln(0, "package main")
 	w.ln(0, "")
@@ -319,6 +320,7 @@ func goProgram(c *c12Case, variant string, gc bool) *source {
 func template(c *c12Case, variant string) *source {
 	n := len(c.Prog)
 	src := &source{main: "index.html", lines: make([][]int, n), paths: samePaths(n, "index.html"), tmpl: true, variant: variant}
+	src.pkgs = src.paths
 	files := map[string]string{}
 	if variant == "tmacro" {
 		lw := &writer{}
@@ -400,7 +402,7 @@ func runOne(c *c12Case, variant string) map[string]any {
 		src = goProgram(c, variant, false)
 	}
 	rec := newRecorder()
-	run := map[string]any{"variant": variant, "lines": src.lines, "paths": src.paths}
+	run := map[string]any{"variant": variant, "lines": src.lines, "paths": src.paths, "pkgs": src.pkgs}
 	var runFn func() error
 	fsys := scriggo.Files{}
 	for k, v := range src.files {
